@@ -69,6 +69,13 @@ class RecordingText:
     def close(self):
         pass
 
+    def __ch_deep_realize__(self, memo):
+        # CrossHair's print() patch deep-copies ("realizes") its arguments; the file object must stay this one
+        return self
+
+    def __deepcopy__(self, memo):
+        return self
+
 
 class RecordingOutfiles:
     """Same interface as cutadapt.files.OutputFiles as far as the pipeline builder and the steps use it."""
